@@ -83,6 +83,9 @@ func selfTest(r *vk.Run) {
 	for _, path := range paths {
 		for i := range apiOps {
 			op := &apiOps[i]
+			if reflectedOps[op.name] {
+				continue
+			}
 			cl := newClient(path, sampleSerial)
 			cl.answer = [][]byte{responseSample(op.code)}
 			vs, err := op.call(cl.u, sampleSerial)
@@ -188,10 +191,12 @@ func main() {
 		listenWorker(r, os.Getenv("C04_PROGRESS"))
 		return
 	}
+	added := discoverOps() // before a replay too: a recorded case may name a reflected operation
 	if r.Replay != "" {
 		replay(r)
 		r.Finish()
 	}
+	r.Set("operations_found_by_reflection_beyond_the_table", added)
 
 	selfTest(r)
 
@@ -233,6 +238,12 @@ func main() {
 	lap("api: reply lengths 0..2048", sweepAPILengths(r))
 	lap("api: GetDevices reply lists", sweepGetDevices(r))
 	lap("api: argument tuples", sweepArgs(r))
+	{
+		c := &ctx{r: r}
+		n := sweepListenStops(c)
+		c.flush()
+		r.Set("listen_stop_forms_x_debug", n)
+	}
 
 	_, evDistinct := eventDatagrams(r.Thorough(), func(int64, []byte) {})
 	_, evReduced := eventDatagramsX(r.Thorough(), true, func(int64, []byte) {})
